@@ -147,6 +147,7 @@ public:
 	uint64_t total_insns = 0;
 	randomx_cache* ss_cache = nullptr;    // cache whose SuperscalarHash is currently compiled into the JIT buffer
 	size_t buf_size;
+	uint64_t compiled = 0;                // programs translated by this compiler object so far
 
 	explicit Engine(Env& e) : env(e) {
 		for (int m = 0; m < 2; ++m) {
@@ -164,7 +165,7 @@ public:
 		if (env.cache) use_cache(env.cache);
 	}
 	// a brand-new compiler object (nothing left over from earlier programs), as a VM gets when it is created
-	void reset_jit() { jit.~JitCompilerA64(); new (&jit) randomx::JitCompilerA64(); emu.set_code(jit.getCode(), buf_size); randomx_cache* c = ss_cache; ss_cache = nullptr; if (c) use_cache(c); }
+	void reset_jit() { compiled = 0; jit.~JitCompilerA64(); new (&jit) randomx::JitCompilerA64(); emu.set_code(jit.getCode(), buf_size); randomx_cache* c = ss_cache; ss_cache = nullptr; if (c) use_cache(c); }
 	void use_cache(randomx_cache* c) { if (ss_cache != c) { jit.generateSuperscalarHash(c->programs, c->reciprocalCache); ss_cache = c; } }
 	uint8_t* isp;
 
@@ -201,7 +202,7 @@ public:
 		else interp<true>(vs[c.mode], c, cfg, dsoff, mx0, ma0, ireg, mx1, ma1, rm_exit);
 		// ---- JIT side: replica of CompiledVm::run / CompiledLightVm::run / CompiledVm::execute for __aarch64__
 		alignas(64) randomx::Program jprog; memcpy(&jprog, c.prog, PROG_BYTES);
-		jit.setFlags(case_flags(c));
+		jit.setFlags(case_flags(c)); ++compiled;
 		if (c.mode == 0) { jit.generateProgram(jprog, cfg); jmem.memory = env.ds.memory + dsoff; }
 		else { use_cache(env.cache); jit.generateProgramLight(jprog, cfg, (uint32_t)dsoff); jmem.memory = env.cache->memory; }
 		jmem.mx = mx0; jmem.ma = ma0;
